@@ -195,6 +195,19 @@ C17_GradScaled(g, gr, grs, L, K) ==
 \* linearity in the coefficient field:  Op(lam*C1 + mu*C2) = lam*Op(C1) + mu*Op(C2)
 C17_MatLinear(M1, M2, M12, lam, mu) == M12 = MAdd(MScale(lam, M1), MScale(mu, M2))
 
+-----------------------------------------------------------------------------
+(* TVD identities (C05), totality (C13) *)
+UniformAxis(g, a) == \A i \in 0..NCells(g, a) : Size(g, a, i) = Size(g, a, i + 1)
+\* interior cells none of whose faces is the first or last face of its axis
+AwayFromBoundary(g) == {c \in Interior(g) : \A a \in Axes(g) : c[a] > 1 /\ c[a] < NCells(g, a)}
+\* unit limiter on uniform grids: upwind operator minus the correction is the central operator
+C05_TvdUnit(g, Mup, Mconv, tvd1, phi) ==
+  (\A a \in Axes(g) : UniformAxis(g, a)) =>
+     \A P \in AwayFromBoundary(g) :
+        RSub(MApplyRow(Mup, phi, P), tvd1[P]) = MApplyRow(Mconv, phi, P)
+VecZero(g, v) == \A c \in AllCells(g) : RIsZero(v[c])
+VecFinite(g, v) == \A c \in AllCells(g) : ~IsNaR(v[c])
+
 \* the reference mesh record (what the documentation promises)
 RefMesh(g) ==
   [dims        |-> Dims(g),
